@@ -199,7 +199,9 @@ def shapes(tier, contexts=('assign', 'component'), size_types=()):
             sets.append(lambda k=k, ext=ext: ESet([mk_elem(k)], [], ext))
     for k1, k2 in itertools.product(ks[:4], ks[:4]):
         for op in ops:
-            for ext in ((False, True) if thorough else (False,)):
+            # quick: the trailing extension marker on two-operand sets only for the finite operand kinds
+            exts = (False, True) if (thorough or (k1 in ks[:2] and k2 in ks[:2])) else (False,)
+            for ext in exts:
                 sets.append(lambda k1=k1, k2=k2, op=op, ext=ext: ESet([mk_elem(k1), mk_elem(k2)], [op], ext))
     three = []
     k3 = [('single',), ('range', 'lo', 'hi')] if not thorough else ks[:4]
